@@ -120,6 +120,8 @@ def aval(v):
         return "(" + ",".join(aval(x) for x in v["items"]) + ")"
     if k == "null":
         return "$"
+    if k == "star":
+        return "*"
     raise ValueError(v)
 
 
